@@ -230,7 +230,7 @@ pub const CORPUS: &[(&str, &str)] = &[
     ("scoped-blocks", "min sum(v in A) { v * x } + prod(i in 1..3) { i } * y + max(i in 0..2) { A[i] * x } + min(i in 0..2) { x + i } + avg(v in A) { v * y }\ns.t.\n    x >= 1\n    y >= 1\nwhere\n    let A = [2, 3]\ndefine\n    x, y as NonNegativeReal(0, 5)\n"),
     ("scoped-logic", "solve\ns.t.\n    all(i in 0..3) { b_i or c }\n    any(i in 0..3) { b_i }\n    xor(i in 0..3) { b_i }\ndefine\n    b_i as Boolean for i in 0..3\n    c as Boolean\n"),
     ("iterators", "min sum((v, i) in enumerate(A)) { v * x_i }\ns.t.\n    x_i >= B[i] for i in 0..len(A)\n    x_i <= a + b for (a, b) in zip(A, B), i in 0..=1\nwhere\n    let A = [1, 2, 3]\n    let B = [0.5, 1.5, 2.5]\ndefine\n    x_i as Real(-10, 10) for i in 0..3\n"),
-    ("graph", "min sum((u, v, w) in edges(G)) { w * x_u_v }\ns.t.\n    sum((u, v) in edges(G)) { x_u_v } >= 1\n    sum(e in neigh_edges(n)) { 1 } >= 0 for n in nodes(G)\nwhere\n    let G = Graph {\n        A -> [B: 2, C: 3],\n        B -> [C: 1.5],\n        C\n    }\ndefine\n    x_u_v as Boolean for (u, v) in edges(G)\n"),
+    ("graph", "min sum((u, v, w) in edges(G)) { w * x_u_v }\ns.t.\n    sum((u, v) in edges(G)) { x_u_v } >= 1\n    sum(e in neigh_edges(n)) { 1 } >= 0 for n in nodes(G)\nwhere\n    let G = Graph {\n        A -> [B: 0, C: 3],\n        B -> [C: 1.5],\n        C\n    }\ndefine\n    x_u_v as Boolean for (u, v) in edges(G)\n"),
     ("graph-no-weights", "min sum((u, v) in edges(G)) { x_u_v }\ns.t.\n    x_u_v >= 0 for (u, v) in edges(G)\nwhere\n    let G = Graph {\n        A -> [B, C],\n        B -> [A],\n        C\n    }\ndefine\n    x_u_v as Boolean for (u, v) in edges(G)\n"),
     ("constants", "min x\ns.t.\n    x >= n + len(S) + M[0][1]\nwhere\n    let n = 3\n    let f = 2.5\n    let t = true\n    let S = [\"a\", \"b\"]\n    let M = [[1, 2], [3, 4]]\n    let E = []\n    let bs = [true, false]\ndefine\n    x as Real\n"),
     ("named-constraints", "min x + y\ns.t.\n    cap: x + y <= 10\n    lo_i: x >= i for i in 0..2\n    x - y >= -3\ndefine\n    x, y as NonNegativeReal\n"),
@@ -254,6 +254,9 @@ pub const CORPUS: &[(&str, &str)] = &[
     ("mixed-matrix", "min sum(i in 0..2, j in 0..2) { M[i][j] * x_i } + k * x_0 + T[1][0][1] * x_1\ns.t.\n    x_i >= M[i][0] for i in 0..2\n    x_0 <= M[1][1] + len(M[0])\nwhere\n    let M = [[1, 2], [3, 4.5]]\n    let T = [[[1, 2], [3, 4]], [[5, 6.5], [7, 8]]]\n    let k = M[0][1]\ndefine\n    x_i as Real(0, 20) for i in 0..2\n"),
     ("named-logic-assertions", "solve\ns.t.\n    pick: a_0 xor b_0\n    one_i: a_i implies not b_i for i in 0..2\n    both: (a_0 or b_1) and not (a_1 and b_0)\n    a_1 iff b_1\ndefine\n    a_i, b_i as Boolean for i in 0..2\n"),
     ("zip-unequal-lengths", "min sum((p, q) in zip(A, B)) { p * x + q } + sum((q, p) in zip(B, A)) { q * x } + sum((p, q, r) in zip(A, B, C)) { (p + q + r) * x }\ns.t.\n    x >= p - q for (p, q) in zip(A, B)\nwhere\n    let A = [1, 2, 3]\n    let B = [4, 5]\n    let C = [6]\ndefine\n    x as Real(0, 9)\n"),
+    ("function-constants", "min sum(i in R) { x_i } + sum((v, k) in EN) { v * x_k } + L * x_0\ns.t.\n    x_i >= 1 for i in R\n    x_0 <= len(range(0, 4, true)) + len(U)\nwhere\n    let R = range(0, 3, false)\n    let EN = enumerate([4, 5])\n    let L = len([1, 2])\n    let U = union([1, 2], [2, 3])\ndefine\n    x_i as Real(0, 9) for i in 0..3\n"),
+    ("long-multibyte-line", "min sum((c, i) in enumerate([\"\u{141}\u{f3}d\u{17a}\", \"K\u{f8}benhavn\", \"\u{17d}ilina\", \"\u{10c}esk\u{e9} Bud\u{11b}jovice\", \"\u{c5}lesund\", \"\u{d3}buda\", \"\u{15e}anl\u{131}urfa\"])) { (i + 1) * x_i }\ns.t.\n    x_i >= len([\"\u{141}\u{f3}d\u{17a}\", \"K\u{f8}benhavn\", \"\u{17d}ilina\", \"\u{10c}esk\u{e9} Bud\u{11b}jovice\", \"\u{c5}lesund\", \"\u{d3}buda\", \"\u{15e}anl\u{131}urfa\"]) - 7 for i in 0..7\ndefine\n    x_i as Real(0, 9) for i in 0..7\n"),
+    ("long-multibyte-line-shifted", "min  sum((c, i) in enumerate([\"\u{141}\u{f3}d\u{17a}\", \"K\u{f8}benhavn\", \"\u{17d}ilina\", \"\u{10c}esk\u{e9} Bud\u{11b}jovice\", \"\u{c5}lesund\", \"\u{d3}buda\", \"\u{15e}anl\u{131}urfa\"])) { (i + 1) * x_i }\ns.t.\n     x_i >= len([\"\u{141}\u{f3}d\u{17a}\", \"K\u{f8}benhavn\", \"\u{17d}ilina\", \"\u{10c}esk\u{e9} Bud\u{11b}jovice\", \"\u{c5}lesund\", \"\u{d3}buda\", \"\u{15e}anl\u{131}urfa\"]) - 7 for i in 0..7\ndefine\n    x_i as Real(0, 9) for i in 0..7\n"),
 ];
 
 pub fn run(mut run: Run) -> ! {
